@@ -288,6 +288,21 @@ func init() {
 				}
 				outs = append(outs, []any{r.Exit == 0, fmt.Sprintf("%x", sha256.Sum256(out))[:16], len(out), strings.Join(variant, " "), !r.TimedOut})
 			}
+			// an output device that opens but refuses every write (/dev/full): whatever a command does about it, it does the same
+			// for standard output and for -o
+			fullArgs := append([]string{}, rq.args...)
+			var fullIn []byte
+			if rq.stdin != "" {
+				fullIn = []byte(rq.stdin)
+			}
+			for ai, a := range fullArgs {
+				if a == "@DICT1" {
+					fullArgs[ai] = "/dev/null"
+				}
+			}
+			fo := run.Run(c.Bin, run.Cmd{Args: append(append([]string{}, fullArgs...), "-o", "/dev/full"), Stdin: fullIn, Timeout: 60 * time.Second})
+			fs := run.Run(c.Bin, run.Cmd{Args: fullArgs, Stdin: fullIn, Timeout: 60 * time.Second, StdoutPath: "/dev/full"})
+			full := []any{fo.Exit == 0, fs.Exit == 0, !fo.TimedOut && !fs.TimedOut, !fo.Panic && !fs.Panic}
 			// history of the runs without --debug, and the --debug runs compared with them (two records, so that a
 			// listed finding about --debug cannot hide nondeterminism of the plain runs)
 			plain, dbg := [][]any{}, [][]any{}
@@ -298,7 +313,7 @@ func init() {
 					plain = append(plain, o)
 				}
 			}
-			return []Rec{{"kind": "group", "cls": rq.name, "outs": plain, "sinks": sinks},
+			return []Rec{{"kind": "group", "cls": rq.name, "outs": plain, "sinks": sinks, "full": full},
 				{"kind": "debug", "sub": "debug", "cls": rq.name, "plain": plain[0], "outs": dbg}}
 		},
 	})
